@@ -175,6 +175,10 @@ def sympy_to_python_fn(
         return x**2 + y
 
     """
+    if len(set(args)) != len(args):
+        # `def f(A: float, A: float)` is a SyntaxError, the whole module could not be used
+        msg = f"Unable to write '{fn_name}' as a function of {args}: an argument is repeated"
+        raise ValueError(msg)
     fn_args = ", ".join(f"{i}: float" for i in args)
 
     return f"""def {fn_name}({fn_args}) -> float:
